@@ -50,9 +50,18 @@ def gen_base(rng, seed):
             p.sink('sink', [{'pub': 'src', 'form': 'all'}], {'proc_ms': [0]})
             p.sink('k1', [{'pub': 'src', 'form': 'main'}], {'proc_ms': rng.choice([[0], [30]])})
         else:
+            slow = rng.choice([None, 0, 1])          # one branch more than a poll interval behind the other
+            skipper = rng.choice([None, 0, 1])       # one branch skips ids (the join then has to adopt newer ids)
             for i in range(2):
-                p.relay(f'b{i}', [{'pub': 'src', 'form': 'main'}], {'proc_ms': rng.choice([[0], [20]]), 'rename': {'main': f'main_b{i}'}})
-            p.sink('sink', [{'pub': 'b0', 'form': 'all'}, {'pub': 'b1', 'form': 'all'}], {'proc_ms': [0]})
+                beh = {'proc_ms': [150] if slow == i else rng.choice([[0], [20]]), 'rename': {'main': f'main_b{i}'}}
+                if skipper == i:
+                    beh['skip'] = {'mod': rng.choice([3, 5]), 'rem': [1]}
+                p.relay(f'b{i}', [{'pub': 'src', 'form': 'main'}], beh)
+            if rng.random() < 0.3:
+                p.relay('j', [{'pub': 'b0', 'form': 'all'}, {'pub': 'b1', 'form': 'all'}], {'proc_ms': [0]})
+                p.sink('sink', [{'pub': 'j', 'form': 'all'}], {'proc_ms': [0]})
+            else:
+                p.sink('sink', [{'pub': 'b0', 'form': 'all'}, {'pub': 'b1', 'form': 'all'}], {'proc_ms': [0]})
         if required:
             p.require_sync_consumers()
     for n in p.nodes:
@@ -76,8 +85,10 @@ def reference_steps(base):
 
 
 def sync_sinks(scn):
+    """Every live synchronized consumer is judged for progress - the sinks and the filters in between (a starved
+    worker behind a balancer does not show at the sink)."""
     topo = scenarios.Topo(scn)
-    return [n['id'] for n in scn['nodes'] if n['role'] == 'sink' and all(not e['eph'] for e in topo.inputs_of(n['id']))]
+    return [n['id'] for n in scn['nodes'] if n['role'] != 'source' and all(not e['eph'] for e in topo.inputs_of(n['id']))]
 
 
 def judge(w, scn, res):
